@@ -306,6 +306,9 @@ func (ip *Inode) Write(atxn *alloctxn.AllocTxn, offset uint64,
 	var data = dataBuf
 
 	util.DPrintf(5, "Write: off %d cnt %d\n", offset, count)
+	if util.SumOverflows(offset, count) {
+		return 0, false
+	}
 	if offset+count > MaxFileSize() {
 		return 0, false
 	}
